@@ -102,6 +102,43 @@ theorem profile_injective (x y : ℝ) (h : Real.tanh x = Real.tanh y) : x = y :=
   · exact absurd h.symm (DV.C03.tanh_lt_tanh h1).ne
 
 
+/-- **On radially symmetric grids the ground truth is the ONLY zero of the residual** (identifiability of radius and interface width): if the fit
+model with parameters `(R', w')` reproduces the image of a droplet `(R, w)` — zero residual, regenerated `_image_deviation` over the regenerated
+renderer — at two support points at different distances from the (constrained) centre, then `R' = R` and `w' = w`.  Together with
+`truth_zero_residual` this makes the truth the unique global minimiser of the cost on polar, spherical and (for the radius/width pair at fixed
+centre) every other grid; the fit cannot converge to cost 0 anywhere else. -/
+theorem radial_truth_unique_zero (vmin vmax R w R' w' d1 d2 : ℝ) (hv : vmin ≠ vmax) (hw : 0 < w) (hw' : 0 < w') (hd : d1 ≠ d2)
+    (h1 : residual_fixed_levels vmin (vmax - vmin) (diffuse_smooth R' w' d1) (scale_field vmin vmax (diffuse_smooth R w d1))
+      (residual_scale (vmax - vmin)) = 0)
+    (h2 : residual_fixed_levels vmin (vmax - vmin) (diffuse_smooth R' w' d2) (scale_field vmin vmax (diffuse_smooth R w d2))
+      (residual_scale (vmax - vmin)) = 0) :
+    R' = R ∧ w' = w := by
+  have p1 := (zero_residual_iff_same_profile vmin vmax _ _ hv).mp h1
+  have p2 := (zero_residual_iff_same_profile vmin vmax _ _ hv).mp h2
+  rw [DV.C03.smooth_eq, DV.C03.smooth_eq] at p1 p2
+  have e1 : (R' - d1) / w' = (R - d1) / w := profile_injective _ _ (by linarith)
+  have e2 : (R' - d2) / w' = (R - d2) / w := profile_injective _ _ (by linarith)
+  have hwne := hw.ne'
+  have hwne' := hw'.ne'
+  field_simp at e1 e2
+  have hww : w' = w := by
+    have : (d2 - d1) * (w' - w) = 0 := by linarith
+    rcases mul_eq_zero.mp this with h | h
+    · exact absurd (by linarith : d1 = d2) hd
+    · linarith
+  refine ⟨?_, hww⟩
+  subst hww
+  have : (R' - R) * w' = 0 := by linarith
+  rcases mul_eq_zero.mp this with h | h
+  · linarith
+  · exact absurd h hwne'
+
+/-- non-vacuity: two support points at distances 1 and 2 -/
+example : (2 : ℝ) = 2 ∧ (1 : ℝ) = 1 :=
+  radial_truth_unique_zero 0 1 2 1 2 1 1 2 (by norm_num) (by norm_num) (by norm_num) (by norm_num)
+    ((zero_residual_iff_same_profile 0 1 _ _ (by norm_num)).mpr rfl) ((zero_residual_iff_same_profile 0 1 _ _ (by norm_num)).mpr rfl)
+
+
 section start
 open Finset BigOperators DV.Merge DV.MergeInv DV.Label DV.LabelInv DV.GridGeom DV.Render DV.BallConn DV.C02 DV.C01
 
